@@ -125,7 +125,7 @@ class MemoryStorage(AbstractStorage):
             [
                 e
                 for e in self.db[bucket]
-                if (not starttime or starttime <= e.timestamp)
+                if (not starttime or starttime <= e.timestamp + e.duration)
                 and (not endtime or e.timestamp <= endtime)
             ]
         )
